@@ -151,6 +151,20 @@ func vChanFill(ch interface{}, n int) {
 	}
 }
 
+// verifNopLogger is what NewZapLogger yields under the engine (zap is not interpreted).
+type verifNopLogger struct{}
+
+func (verifNopLogger) Debug(args ...interface{})                 {}
+func (verifNopLogger) Debugf(format string, args ...interface{}) {}
+func (verifNopLogger) Info(args ...interface{})                  {}
+func (verifNopLogger) Infof(format string, args ...interface{})  {}
+func (verifNopLogger) Warn(args ...interface{})                  {}
+func (verifNopLogger) Warnf(format string, args ...interface{})  {}
+func (verifNopLogger) Error(args ...interface{})                 {}
+func (verifNopLogger) Errorf(format string, args ...interface{}) {}
+func (verifNopLogger) Fatal(args ...interface{})                 {}
+func (verifNopLogger) Fatalf(format string, args ...interface{}) {}
+
 func verifRunOne(fn func(), w *verifWitness) (run verifRun) {
 	verifMu.Lock()
 	verifCur = w
